@@ -158,14 +158,15 @@ def main():
             out.inconc(f'solver counterexample {rl} {ql} did not reproduce natively: {desc}')
     # native confirmation of the runtime half on the type expressions the property lists (sampled, not solver-decided)
     native = []
-    if not by_role:
-        for ql in (([], ['R'], ['R', 'L', 'R']) if tier == 'quick' else ([], ['R'], ['R', 'L', 'R'], ['L'], ['L', 'L', 'R'])):
+    confirmed = bool(out.violations)
+    if not confirmed:
+        for ql in (([], ['R'], ['L', 'R'], ['R', 'L', 'R']) if tier == 'quick' else ([], ['R'], ['L', 'R'], ['R', 'L', 'R'], ['L'], ['L', 'L', 'R'], ['L', 'R', 'L'])):
             ok, desc = confirm(C, ql)
             replayed += 1
             native.append(dict(type_expression=K.graphql_type_expr(ql, 'ID'), ok=ok, note=desc[:160]))
-            if not ok and not by_role:
+            if not ok:
                 out.violation('native:' + K.graphql_type_expr(ql, 'ID'), desc, dict(kind='native', qualifiers=ql))
-    if not by_role:
+    if not confirmed:
         for ql in ([], ['L', 'R']):
             ok, desc = confirm(C, ql, declare_id=True)
             replayed += 1
@@ -173,7 +174,7 @@ def main():
             if not ok:
                 out.violation('native:declared-scalar-ID', 'schema with an explicit `scalar ID` definition: ' + desc, dict(kind='native', qualifiers=ql, declare_id=True))
                 break
-    if not by_role:
+    if not confirmed:
         ok, desc = confirm_positions(C)
         replayed += 1
         native.append(dict(positions='fragment spread (flatten) and inline fragment (variant)', ok=ok, note=desc[:200]))
